@@ -38,6 +38,7 @@ import (
 	"net"
 	"os"
 	"path/filepath"
+	"regexp"
 	"strconv"
 	"strings"
 	"sync"
@@ -47,6 +48,8 @@ import (
 )
 
 const verifMaxG = 64
+
+var verifTimestampRe = regexp.MustCompile(`"Timestamp":-?[0-9]+`)
 
 type verifKey struct {
 	id   uint16
@@ -268,6 +271,26 @@ func verifCacheCase(dir string, caseNo int, line string) (string, string) {
 		}
 		hashes[h] = true
 		keys = append(keys, k)
+	}
+	if seed%2 == 1 {
+		// every second case starts the way a restarted collector does: the shared keys were learned by an earlier
+		// run and come from its cache file, saved 1 hour .. 400 days ago
+		for j := 0; j < nShared; j++ {
+			k := keys[j]
+			k.seqOrd = 1
+			atomic.StoreUint32(&k.started[verifMaxG-1], 1)
+			cache.insert(k.id, k.addr, verifTemplate(j, 1<<6|uint32(verifMaxG-1)))
+			atomic.StoreUint32(&k.acked[verifMaxG-1], 1)
+		}
+		old := filepath.Join(dir, fmt.Sprintf("old-%d.json", caseNo))
+		if err := cache.Dump(old); err != nil {
+			return "bad", "fail:Dump failed: " + err.Error()
+		}
+		b, _ := ioutil.ReadFile(old)
+		age := []int64{3600, 86400, 400 * 86400}[(seed/2)%3]
+		b = verifTimestampRe.ReplaceAll(b, []byte(fmt.Sprintf(`"Timestamp":%d`, time.Now().Unix()-age)))
+		ioutil.WriteFile(old, b, 0o644)
+		cache = GetCache(old)
 	}
 	var st verifStats
 	fail := &verifFail{}
